@@ -76,7 +76,14 @@ def registry : List (Nat × String) := [
   (562735410588237739, "shared/pure_utils.py:ensure_valid_identifier — identifier character class: membership"),
   (406841448383492112, "shared/pure_utils.py:<module> — inner frozenset feeding the DUNDERS frozenset (set → set)"),
   (612888376805907351, "sqlalchemy/utils/emit_utils.py:update_with_imports_from_columns — inline frozenset used through `.__contains__`; the surrounding candidates are `sorted(frozenset(…))`"),
-  (559139309206094679, "sqlalchemy/utils/parse_utils.py:<module> — sqlalchemy type-name table: membership")
+  (559139309206094679, "sqlalchemy/utils/parse_utils.py:<module> — sqlalchemy type-name table: membership"),
+  (714709335938653196, "compound/openapi/gen_routes.py:upsert_routes — missing routes: `sorted(…, key={'post':0,'get':1,'update':2,'delete':3}.__getitem__)`; the key is injective on the method names, so the order is total"),
+  -- `literal_eval` of a default VALUE: a real set exists only when the user's default is itself a set display; then its hash
+  -- order does reach emitted text (KNOWN ORDER LEAK, finding C10-set-display-default; witnessed by the hash-seed differential).
+  (588231627510000959, "shared/ast_utils.py:_infer_type_and_default_from_quoted — literal_eval of a default value (KNOWN LEAK for set-display defaults: C10-set-display-default)"),
+  (436791852078054526, "shared/defaults_utils.py:_parse_out_default_and_doc — literal_eval('(<default text>)') converted by int/float/bool/complex/str at once; a set display raises TypeError in those constructors or is rendered by str() (KNOWN LEAK: C10-set-display-default)"),
+  (628456504358391185, "shared/defaults_utils.py:_parse_out_default_and_doc — literal_eval of the text 'True' / 'False' only"),
+  (260230328897055764, "shared/docstring_parsers.py:_infer_default — literal_eval of a default AST node (KNOWN LEAK for set-display defaults: C10-set-display-default)")
 ]
 
 /-- **Table theorem:** every set expression of the current non-test code that is bound, passed on or iterated in an
